@@ -367,7 +367,11 @@ class StmtMixin:
             pe = pb.clone() if not is_for else p.clone()
             pb.assume(g)
             if self.feasible(pb):
+                for sname, sfn in (spec.get("snapshot") or {}).items():
+                    pb.env["$" + sname] = sfn(ctx_of(pb, k))  # ghost local: value at the loop head of this iteration
                 v0 = None
+                inc = spec.get("increases")
+                i0 = inc(ctx_of(pb, k)) if inc is not None else None
                 if dec is not None:
                     v0 = dec(ctx_of(pb, k))
                     self.oblige(pb, f"variant-bounded:{tag}", v0 >= 0, s)
@@ -382,6 +386,9 @@ class StmtMixin:
                     if kind in (NEXT, CONT):
                         if inv is not None:
                             self.oblige(p2, f"inv-preserved:{tag}", inv(ctx_of(p2, k + 1)), s)
+                        if inc is not None:
+                            # progress measure: every completed iteration strictly advances it
+                            self.oblige(p2, f"progress-increases:{tag}", inc(ctx_of(p2, k + 1)) > i0, s)
                         if dec is not None:
                             self.oblige(p2, f"variant-decreases:{tag}", dec(ctx_of(p2, k + 1)) < v0, s)
                         elif not is_for:
